@@ -18,8 +18,8 @@ import (
 // silently omitted. Returns "" when the relaxed property holds, otherwise a
 // stable class and a detail.
 func Relaxed(g, d *e1.Dump) (class, detail string) {
-	if d.Panic != "" {
-		return "panic:" + panicSite(d.Panic), "reader panicked: " + d.Panic
+	if ps := d.Panics(); len(ps) > 0 {
+		return "panic:" + panicSite(ps[0]), "reader panicked: " + ps[0]
 	}
 	if d.OpenErr != "" {
 		return "", "" // an error is always acceptable
